@@ -223,6 +223,7 @@ func init() {
 	for _, id := range []string{"C07", "C11", "C17"} {
 		props[id].Harnesses = append(props[id].Harnesses, HarnessSpec{Name: "VH_C11_rekey", Replay: "native"})
 	}
+	props["C17"].Harnesses = append(props["C17"].Harnesses, HarnessSpec{Name: "VH_C17_pooled_memory", Replay: "race", Unwind: 400})
 	trust := HarnessSpec{Name: "VH_C02_trust_store", Replay: "native", Unwind: 400}
 	for _, id := range []string{"C01", "C02", "C04", "C10"} {
 		props[id].Harnesses = append(props[id].Harnesses, trust)
